@@ -203,7 +203,7 @@ def run_tlc(workdir, module, cfg=None, workers=1, timeout=900, env=None, extra=(
             deadlock=False, coverage=False):
     """Run TLC on workdir/module.tla. Specs under /verif/spec are found through the TLA library path."""
     meta = os.path.join(workdir, "meta_" + module)
-    cmd = ["java", f"-Xmx{xmx}", "-XX:+UseParallelGC", f"-DTLA-Library={SPEC}",
+    cmd = ["java", f"-Xmx{xmx}", "-Xss64m", "-XX:+UseParallelGC", f"-DTLA-Library={SPEC}",
            "-cp", f"{JAR}:{CM}", "tlc2.TLC", "-workers", str(workers), "-metadir", meta,
            "-noGenerateSpecTE"]
     if not deadlock:
